@@ -24,6 +24,49 @@ CLAIMED = {
         note="As C01."),
 }
 
+CLAIMED.update({
+    "C02": dict(
+        cat="model_checking", ref="DESIGN.md §7 C02",
+        technique="TLC trace validation of recorded sequential runs against the sequential TLA+ spec (SeqOps / Trace_Seq); op sequences from a seeded generator and from TLC simulation of FlurrySeq",
+        text="Op sequences over the whole public API are replayed into HashMap/HashSet through both facades for five hashers and "
+             "seven capacities; TLC validates every return value and, after every step, len/is_empty, the full contents via iteration "
+             "and via lookup of every key against the sequential specification (first key kept, payloads, set relations, Debug, Index).",
+        note="Trusted: TLC/SANY, the harness's observation code. Bounded: sampled sequences (small key universe), not all."),
+    "C05": dict(
+        cat="model_checking", ref="DESIGN.md §7 C05",
+        technique="TLC evaluation of the TLA+ predicate QuiescentOK (Trace_Quiescent) on inspector snapshots + iter/get/len results recorded at quiescent points",
+        text="Every quiescent observation (after each step of sequential runs; after all threads of scheduled concurrent programs with "
+             "resizes, helpers, tree conversions, clears joined) is checked by TLC: iteration = lookups = len, every entry where its "
+             "hash is searched, no duplicate, no forwarding marker / next table / negative size_ctl, power-of-two length, nothing locked.",
+        note="Trusted: the cfg-gated inspector (reads the real table), TLC. Bounded: observed executions only."),
+    "C09": dict(
+        cat="exploration", ref="DESIGN.md §7 C09",
+        technique="enumeration of the foreign-guard variant of every guard-taking method (alphabet completeness checked against /repo/src), outcomes validated by TLC against Trace_Seq",
+        text="Finite API-surface property: every guard-accepting public method of HashMap/HashSet, directly and through with_guard "
+             "wrappers, on empty / 1-entry / tree-bin collections, must panic and leave the state untouched; the model is the oracle.",
+        note="The method list is extracted from the sources by a regex over `pub fn`; a new guard-taking method without a model operation makes the check exit 2."),
+    "C14": dict(
+        cat="model_checking", ref="DESIGN.md §7 C14",
+        technique="TLC trace validation of recorded table-length/count sequences against the capacity rules (Trace_Capacity)",
+        text="with_capacity(c)+c collision-free inserts for every c in a range, reserve grids, tables at threshold-1 followed by every "
+             "removing operation, and seeded sequences; TLC checks: never shrinks, power of two, grows only in reserve/extend or in an "
+             "insert that reaches 3/4 of the length or meets an overfull bin in a table < 64, never in a removing operation.",
+        note="Lazy allocation of the first table is not counted as growth (see DESIGN.md). Trusted: inspector, TLC."),
+    "C18": dict(
+        cat="model_checking", ref="DESIGN.md §7 C18",
+        technique="fault-point enumeration (panic at the i-th callback) replayed under catch_unwind; outcomes and all later observations validated by TLC against Trace_Seq; scheduled threads then write the same bins",
+        text="Sequences with a panic injected at the i-th invocation of the compute / retain / retain_force closure or in iterator-consuming "
+             "code, on list and tree bins: TLC checks the entry is unchanged, earlier removals of that call persist, every later "
+             "observation agrees with the model; two scheduled threads then write the same bins and must finish (no leaked lock).",
+        note="Trusted: catch_unwind boundary in the harness, TLC."),
+    "C19": dict(
+        cat="exploration", ref="DESIGN.md §7 C19",
+        technique="exhaustive enumeration of small documents / item multisets for serde and rayon paths; outcomes validated by TLC against Trace_Bulk",
+        text="Data property: all documents of <=4 entries over 2 keys x 2 values, malformed-type documents, all multisets of <=4..5 items "
+             "for par_extend/from_par_iter with pools 1,2,4, round trips; never a panic, contents = some interleaving of the inserts.",
+        note="Trusted: serde_json, rayon, TLC."),
+})
+
 NOT_APPLICABLE = {
     "C16": "compile-time verdict of rustc's borrow checker over a corpus of programs; there is no state, transition or trace for a TLA+ specification to describe (DESIGN.md §7)",
     "C17": "compile-time verdict of rustc's trait solver (Send/Sync bounds); no state, transition or trace for a TLA+ specification to describe (DESIGN.md §7)",
